@@ -65,6 +65,15 @@ describe = P.describe
 
 def _kind_key(k):
     if "-vs-" in k:
+        k, _, site = k.partition("@")
+        a, b = k.split("-vs-")
+        a, b = sorted([a, b], key=lambda t: NUM_RANK.get(t, 9))
+        return f"{a}-vs-{b}" + (f"@{site}" if site else "")
+    return k
+
+
+def _kind_key_unused(k):
+    if "-vs-" in k:
         a, b = k.split("-vs-")
         a, b = sorted([a, b], key=lambda t: NUM_RANK.get(t, 9))
         return f"{a}-vs-{b}"
@@ -151,6 +160,9 @@ def judge(case, impl, model):
     copies = impl.get("copies", {})
     for kind in P.COPY_KINDS:
         c = copies.get(kind)
+        if c and c.get("raised"):
+            site = ":constant-field" if case.get("consts") else ""
+            fails.append((f"{kind}-raises:{c['raised']}{site}", f"{kind} of x raised {c['unavailable']}: x={show(0)}"))
         if not c or "unavailable" in c:
             continue
         if not (c["eq"] and c["eqRev"]) or c["ne"] or not c["fieldwise"]:
@@ -164,6 +176,26 @@ def judge(case, impl, model):
         elif not c["heq"] or c["setlen"] != 1:
             for k in [_kind_key(k) for k in c.get("diffs", [])] or ["unexplained"]:
                 fails.append((f"{kind}-hash-differs:{k}", f"{kind} of x is == x but hashes differently: str(x)={impl['strs'][0]!r} str(copy)={c['str']!r}"))
+    # ---- chain of copy operations
+    ch = impl.get("chain")
+    if ch:
+        label = ">".join(ch["chain"])
+        if ch.get("raised"):
+            failing, before = ch["chain"][ch["at"]], ch["chain"][:ch["at"]]
+            site = ":constant-field" if case.get("consts") else (":undefined-value-class" if case["cls"].get("undef") else "")
+            upto = failing if (not before or case.get("consts")) else \
+                f"{failing}-after-{'pickle' if 'pickle' in before else before[-1]}"
+            fails.append((f"chain-raises:{upto}:{ch['raised']}{site}",
+                          f"link {ch['at']} of the copy chain {label} raised {ch['unavailable']}: x={show(0)}"))
+        elif "state" in ch:
+            if not (ch["eq"] and ch["eqRev"] and ch["fieldwise"]):
+                fails.append(("chain-not-eq", f"the result of the copy chain {label} is not == x: x={show(0)} "
+                                              f"result={json.dumps(ch['state']['o'])[:220]}"))
+            elif not ch["heq"]:
+                for k in [_kind_key(k) for k in ch.get("diffs", [])] or ["unexplained"]:
+                    first = next((kd for kd in ch["chain"] if kd != "copy"), "copy")
+                    fails.append((f"{first}-hash-differs:{k}", f"the result of the copy chain {label} is == x but hashes "
+                                  f"differently: str(x)={impl['strs'][0]!r} str(result)={ch['str']!r}"))
     # ---- independence and behaviour of the copies
     runs = impl.get("runs", {})
     ops = impl.get("ops_actual", [])
